@@ -272,7 +272,7 @@ pub fn build(case: &Case, ctx: &mut CaseCtx) -> Built {
         for k in doomed {
             d.store.data.remove(&k);
         }
-        let version = ["0.13.4", "0.9.1", "0.2.0", "0.10.3"][(case.variant as usize / 5) % 4];
+        let version = ["0.13.4", "0.9.1", "0.2.0", "0.10.3", "0.12.0-alpha1"][(case.variant as usize / 5) % 5];
         d.store.data.insert(b"contract_info".to_vec(), format!(r#"{{"contract":"crates.io:cw20-base","version":"{version}"}}"#).into_bytes());
         must(d.tx(|deps, env| cw20_base::contract::migrate(deps, env, cw20_base::msg::MigrateMsg {})).map(|_| ()), "migrate from a pre-0.14 image");
         ctx.count("cw20_spender_listing_after_migration");
